@@ -1,0 +1,50 @@
+//go:build verif
+
+// Contracts and ghost specification functions for deductive verification (govc).
+// This file is only compiled with the build tag "verif"; it adds no behaviour.
+
+package app
+
+func implies(a, b bool) bool { return !a || b }
+
+func forall(lo, hi int, f func(int) bool) bool {
+	for i := lo; i < hi; i++ {
+		if !f(i) {
+			return false
+		}
+	}
+	return true
+}
+
+func exists(lo, hi int, f func(int) bool) bool {
+	for i := lo; i < hi; i++ {
+		if f(i) {
+			return true
+		}
+	}
+	return false
+}
+
+func assert(b bool) {
+	if !b {
+		panic("ghost assert failed")
+	}
+}
+
+// sdbInv is the representation invariant of segDataBuffer (gap form).
+func sdbInv(c *segDataBuffer) bool {
+	return len(c.items) == int(c.size) && c._nrItems <= c.size && c.size >= 1 &&
+		forall(0, int(c._nrItems), func(i int) bool {
+			return forall(i+1, int(c._nrItems), func(j int) bool {
+				return int(c.items[j].seqNr)-int(c.items[i].seqNr) >= j-i
+			})
+		})
+}
+
+//@ func (*segDataBuffer).add
+//@   requires c != nil && sdbInv(c)
+//@   ensures  sdbInv(c)
+//@   assigns  c._nrItems, c.items[*]
+//@   loop 1 invariant 0 <= i && i <= c.size && nrToDiscard <= i
+//@   loop 1 invariant (i > 0 && c.items[0].seqNr <= item.seqNr - c.size) ==> nrToDiscard >= 1
+//@   loop 1 decreases int(c.size) - int(i)
